@@ -13,10 +13,15 @@ template <> struct Eps<long double> { static constexpr double u = 0x1p-64; stati
 
 static const double SEM_K = 1048576.0;   // 2^20: semantic tolerance in units of u*e
 static double PREC_K_D = 64, PREC_K_L = 64;   // C09 constants (calibrated, see DESIGN sec. 5)
+// Structured inputs (special values such as exact zeros / equal parameters, incremental, default and partial-default vectors, points on or
+// next to an axis) make whole groups of terms vanish, so the scale e shrinks while the expanded library expression still rounds its
+// surviving cancellations: the calibrated constant of the generic regime does not transfer; these cases get their own, wider constant.
+static double PREC_K_IRR = 256;
 
 struct MaxStat { double max = 0; long n = 0; std::string where; };
 static std::map<std::string, MaxStat> g_ratio;     // "<sol>|<ev>|<prec>" -> max |lib-ref|/(u e)
 static std::map<std::string, MaxStat> g_dl;        // double vs long double
+static std::map<std::string, MaxStat> g_ratio_irr; // same as g_ratio, structured inputs
 static long g_ref_nonfinite = 0, g_loose_overflow = 0;
 static long g_fd = 0, g_fd_inconclusive = 0; static bool fd_check = true;
 static long g_cbchecks = 0, g_invchecks = 0;
@@ -66,7 +71,7 @@ static void run_solution(const orc::Sol& sol, const SolSpec& spec, uint64_t seed
   if (!reselect) for (auto& n : names) defv[n] = (long double)masa_get_param<S>(n);
   std::map<std::string, long double> setv;          // value last passed to masa_set_param (or reported after masa_init_param), per name
   orc::Ctx base; base.sol = sol.name; base.nx = sol.nargs;
-  bool loose_state = false;
+  bool loose_state = false, irregular_state = false;
   for (long cs = case0; cs < case0 + ncases; cs++) {
     Rng r(seed, strhash(sol.name) * 1000003ULL + (uint64_t)cs * 2 + (sizeof(S) == 8 ? 0 : 1));
     // case kinds: fresh (every parameter redrawn) | delta (1-3 parameters changed, the rest kept) | defaults (masa_init_param) |
@@ -143,6 +148,8 @@ static void run_solution(const orc::Sol& sol, const SolSpec& spec, uint64_t seed
     // stretched magnitudes (for as long as any stretched value stays in the vector): judged at the semantic tolerance only; overflow to inf/NaN is counted, not judged
     if (kind == 4) loose_state = true; else if (kind == 0 || kind == 2) loose_state = false;
     const bool loose = loose_state;
+    if (kind == 0) irregular_state = !special.empty(); else if (kind != 4) irregular_state = true;
+    const bool irregular_case = irregular_state;
     int cbk = r.below(orc::chem_ncb());
     for (int pt = 0; pt < npoints; pt++) {
       long double xs[4] = {0, 0, 0, 0};
@@ -159,6 +166,8 @@ static void run_solution(const orc::Sol& sol, const SolSpec& spec, uint64_t seed
       if (pt == 0 && have_prev) for (int i = 0; i < 4; i++) xs[i] = prev_pt[i];   // same point, new parameters
       for (int i = 0; i < 4; i++) prev_pt[i] = xs[i];
       have_prev = true;
+      bool irregular_pt = irregular_case;
+      for (int i = 0; i < sol.nargs; i++) if (fabsl(xs[i]) < 0.05L) irregular_pt = true;
       S a[4]; long double al[4];
       orc::Ctx c = base;
       for (int i = 0; i < sol.nargs; i++) { a[i] = (S)xs[i]; al[i] = (long double)a[i]; xs[i] = (long double)a[i]; c.x[i] = EQ::exact((orc::Q)a[i]); }
@@ -216,8 +225,8 @@ static void run_solution(const orc::Sol& sol, const SolSpec& spec, uint64_t seed
           double ratio = scale > 0 ? err / (u * scale) : (err == 0 ? 0 : 1e300);
           // which model does the library agree with best: the governing operator, or a recorded deviation model?
           std::string matched_alt;
-          const double precK_here = loose ? SEM_K : precK;
-          if (ratio > precK_here) {
+          const double precK_here = loose ? SEM_K : irregular_pt ? std::max(precK, PREC_K_IRR) : precK;
+          if (ratio > std::min(precK, precK_here)) {
             double best = ratio;
             for (auto& al_ : ref.alts) {
               double sc2 = std::max(std::max(al_.ref.e, orc::absd(al_.ref.v)), scale);
@@ -238,7 +247,8 @@ static void run_solution(const orc::Sol& sol, const SolSpec& spec, uint64_t seed
           // precision regime (C09)
           MaxStat& ms = g_ratio[sol.name + "|" + e.id + "|" + Eps<S>::tag];
           ms.n++;
-          if (ratio > ms.max) { ms.max = ratio; }
+          if (ratio > ms.max && !irregular_pt && !loose) { ms.max = ratio; }
+          if (irregular_pt && !loose) { MaxStat& mi = g_ratio_irr[sol.name + "|" + e.id + "|" + Eps<S>::tag]; mi.n++; if (ratio > mi.max) mi.max = ratio; }
           if (ratio > precK_here) {
             viol_once("C09", "precision:" + sol.name + ":" + e.id + ":" + Eps<S>::tag, "error exceeds the working-precision bound K*u*e", detail(ratio));
             // "within floating-point roundoff ... in both scalar types" is part of the statement of C01-C07 as well
@@ -251,7 +261,7 @@ static void run_solution(const orc::Sol& sol, const SolSpec& spec, uint64_t seed
             g_dlcmp++;
             MaxStat& m2 = g_dl[sol.name + "|" + e.id];
             m2.n++; if (r3 > m2.max) m2.max = r3;
-            if (r3 > 2 * PREC_K_D && matched_alt.empty())
+            if (r3 > 2 * (irregular_pt ? std::max(PREC_K_D, PREC_K_IRR) : PREC_K_D) && matched_alt.empty())
               viol_once("C09", "double-vs-longdouble:" + sol.name + ":" + e.id, "double and long double interfaces disagree beyond double precision", detail(r3));
           }
           if (e.kind != KF && cls == "grad" && fd_check && !loose) {
@@ -345,6 +355,7 @@ int main(int argc, char** argv) {
   bool dl = hasflag(argc, argv, "--dl");
   PREC_K_D = atof(getarg(argc, argv, "--kd", "64").c_str());
   PREC_K_L = atof(getarg(argc, argv, "--kl", "64").c_str());
+  PREC_K_IRR = atof(getarg(argc, argv, "--kirr", "256").c_str());
   std::set<std::string> classes;
   for (auto& s : split(getarg(argc, argv, "--classes", "source,exact,grad"), ',')) classes.insert(s);
   // --multi: every solution of the list lives on its own handle in ONE process (first pass: init, second pass: select back),
@@ -379,6 +390,7 @@ int main(int argc, char** argv) {
   LOG.count("nonfinite", g_nonfinite);
   LOG.count("matched_known_deviation", g_known);
   for (auto& kv : g_ratio) LOG.stat("ratio", JObj().str("k", kv.first).num("max", kv.second.max).num("n", kv.second.n).done());
+  for (auto& kv : g_ratio_irr) LOG.stat("ratio_structured", JObj().str("k", kv.first).num("max", kv.second.max).num("n", kv.second.n).done());
   for (auto& kv : g_dl) LOG.stat("dl", JObj().str("k", kv.first).num("max", kv.second.max).num("n", kv.second.n).done());
   for (auto& kv : g_viol_count) LOG.stat("violcount", JObj().str("k", kv.first).num("n", kv.second).done());
   end_ok();
